@@ -1,5 +1,5 @@
 import HappyProofs.C08.PipeStep
-import HappyProofs.C08.Order
+import HappyProofs.C08.FairStep
 /-!
 # C08 — property theorems
 
@@ -52,22 +52,95 @@ theorem spec_lifo_pop (c : Cfg) (hk : c.kind = .lifo) (ss : SSt) (now k : Nat) :
     (sPop c ss now k).2 = ss.held.getLast? := by
   unfold sPop; rw [hk]; simp only; split <;> simp_all
 
-/-- not proved: the same refinement for the key-ordered and the fair-share policies (the list
-    specification's stable minimum / least-recently-served flow against the model's
-    `(key, insert_order)` extract-minimum / `OrderedDict` rotation). Checked on every run instead:
-    implementation = model (transcripts) and the Lean judge runs `sStep` on the implementation's answers. -/
-def prio_stable_full : Prop :=
-  ∀ (c : Cfg), c.kind = .prio → ∀ ops, (run c {} ops).map (·.1) = (sRun c {} ops).map (·.1)
-def deadline_order_expiry_full : Prop :=
-  ∀ (c : Cfg), c.kind = .deadline → ∀ ops, (run c {} ops).map (·.1) = (sRun c {} ops).map (·.1)
-def fair_rr_full : Prop :=
-  ∀ (c : Cfg), c.kind = .fair ∨ c.kind = .wfq → ∀ ops, (run c {} ops).map (·.1) = (sRun c {} ops).map (·.1)
+/-- stable priority order (PriorityQueue, with or without BalkingQueue): for every operation list the
+    heap model — extract-minimum under `(priority, insert_order)` — answers exactly like the list
+    specification, in which a pop returns the first held item (in acceptance order) whose key is ≤
+    every held key (`spec_prio_pop`) and peek shows the next pop -/
+theorem prio_stable (c : Cfg) (hk : c.kind = .prio) (ops : List Op) :
+    (run c {} ops).map (·.1) = (sRun c {} ops).map (·.1) :=
+  run_krel (by simp [Kind.keyed, hk]) ops {} {} krel_init
+
+/-- deadline order with expiry (DeadlineQueue): for every operation list — pushes, pops at arbitrary
+    clock readings, peeks, `purge_expired()` calls, `count_expired()`/`count_valid()` — the heap
+    model answers exactly like the list specification: every held item whose deadline has passed is
+    dropped (by the pop that meets it or by the purge) and never returned, a pop returns the stable
+    minimum of the live ones (`spec_deadline_pop`), and the order law keeps holding after a purge -/
+theorem deadline_order_expiry (c : Cfg) (hk : c.kind = .deadline) (ops : List Op) :
+    (run c {} ops).map (·.1) = (sRun c {} ops).map (·.1) :=
+  run_krel (by simp [Kind.keyed, hk]) ops {} {} krel_init
+
+theorem spec_prio_pop (c : Cfg) (hk : c.kind = .prio) (ss : SSt) (now k : Nat) :
+    (sPop c ss now k).2 = firstMin ss.held := by
+  unfold sPop; rw [hk]; simp only; split <;> simp_all
+
+theorem spec_deadline_pop (c : Cfg) (hk : c.kind = .deadline) (ss : SSt) (now k : Nat) :
+    (sPop c ss now k).2 = firstMin (ss.held.filter fun x => decide (now ≤ x.key)) := by
+  unfold sPop; rw [hk]; simp only; split <;> simp_all
+
+/-- the stable minimum really is one: it is held, its key is minimal, and nothing before it has the same key -/
+theorem firstMin_is_stable_min (l : List Item) (m : Item) (h : firstMin l = some m) :
+    m ∈ l ∧ (∀ y ∈ l, m.key ≤ y.key) ∧ ∃ pre post, l = pre ++ m :: post ∧ ∀ y ∈ pre, m.key < y.key := by
+  refine ⟨List.mem_of_find?_eq_some h, (isMinIn_iff l m).mp (List.find?_some h), ?_⟩
+  obtain ⟨hm, pre, post, hl, hpre⟩ := List.find?_eq_some_iff_append.mp h
+  refine ⟨pre, post, hl, fun y hy => ?_⟩
+  have hn := hpre y hy
+  have hmin := (isMinIn_iff l m).mp hm
+  have hy' : y ∈ l := by rw [hl]; exact List.mem_append_left _ hy
+  cases hc : isMinIn l y with
+  | true => rw [hc] at hn; simp at hn
+  | false =>
+    have : ¬ ∀ z ∈ l, y.key ≤ z.key := fun hall => by
+      rw [(isMinIn_iff l y).mpr hall] at hc; cases hc
+    have h1 := hmin y hy'
+    by_cases hlt : m.key < y.key
+    · exact hlt
+    · exact absurd (fun z hz => by have := hmin z hz; omega) this
+
+/-- fair share (FairQueue, WeightedFairQueue, with or without BalkingQueue): for every operation list
+    the `OrderedDict`-of-deques model answers exactly like the list specification, in which the
+    backlogged flow that was served — or became backlogged — least recently is served next, oldest
+    item of that flow first (`spec_fair_pop`), a flow of weight w keeping its turn for w consecutive
+    items; `get_flow_depth`, `flow_count`, `get_flow_weight` agree with the held list -/
+theorem fair_rr (c : Cfg) (hk : c.kind = .fair ∨ c.kind = .wfq) (ops : List Op) :
+    (run c {} ops).map (·.1) = (sRun c {} ops).map (·.1) := by
+  rcases hk with hk | hk
+  · exact run_frel (fair := true) (Or.inl ⟨hk, rfl⟩) ops {} {} (frel_init true)
+  · exact run_frel (fair := false) (Or.inr ⟨hk, rfl⟩) ops {} {} (frel_init false)
+
+/-- what the specification's fair-share pop returns: the oldest held item of the flow holding the
+    smallest service ticket -/
+theorem spec_fair_pop (c : Cfg) (hk : c.kind = .fair ∨ c.kind = .wfq) (ss : SSt) (now k : Nat) :
+    (sPop c ss now k).2 = (minAct ss.act).bind fun a => ss.held.find? (·.flow == a.fid) := by
+  unfold sPop
+  rcases hk with hk | hk <;> simp only [hk] <;> (cases minAct ss.act <;> simp only [Option.bind]) <;>
+    (split <;> rename_i h <;> simp [h])
+
+/-- three flows, round robin; flow 0 has two items -/
+example : (run { kind := .fair } {} [.push ⟨0, 0, 0⟩ 0 false false, .push ⟨1, 0, 0⟩ 0 false false,
+      .push ⟨2, 0, 1⟩ 0 false false, .push ⟨3, 0, 2⟩ 0 false false, .pop 0 0, .pop 0 0, .pop 0 0, .pop 0 0]).map (·.1)
+    = [.pushed true, .pushed true, .pushed true, .pushed true,
+       .popped (some ⟨0, 0, 0⟩), .popped (some ⟨2, 0, 1⟩), .popped (some ⟨3, 0, 2⟩), .popped (some ⟨1, 0, 0⟩)] := by decide
+
+/-- weighted: flow 0 (weight 2) is served twice per turn -/
+example : (run { kind := .wfq, weights := [2, 1] } {} [.push ⟨0, 0, 0⟩ 0 false false, .push ⟨1, 0, 0⟩ 0 false false,
+      .push ⟨2, 0, 0⟩ 0 false false, .push ⟨3, 0, 1⟩ 0 false false, .pop 0 0, .pop 0 0, .pop 0 0, .pop 0 0]).map (·.1)
+    = [.pushed true, .pushed true, .pushed true, .pushed true,
+       .popped (some ⟨0, 0, 0⟩), .popped (some ⟨1, 0, 0⟩), .popped (some ⟨3, 0, 1⟩), .popped (some ⟨2, 0, 0⟩)] := by decide
+
+/-- a purge between the pushes and the pops: two expired entries leave, the survivors come out
+    earliest-deadline-first (the input shape of a heap compaction that would lose the order) -/
+example : (run { kind := .deadline } {}
+    [.push ⟨0, 2, 0⟩ 1 false false, .push ⟨1, 3, 0⟩ 1 false false, .push ⟨2, 60, 0⟩ 1 false false,
+     .push ⟨3, 90, 0⟩ 1 false false, .push ⟨4, 50, 0⟩ 1 false false, .push ⟨5, 40, 0⟩ 1 false false,
+     .purge 4, .pop 4 0, .pop 4 0, .pop 4 0]).map (·.1)
+    = [.pushed true, .pushed true, .pushed true, .pushed true, .pushed true, .pushed true,
+       .purged 2, .popped (some ⟨5, 40, 0⟩), .popped (some ⟨4, 50, 0⟩), .popped (some ⟨2, 60, 0⟩)] := by decide
 
 example : (run { kind := .lifo, cap := some 2 } {}
     [.push ⟨0, 0, 0⟩ 0 false false, .push ⟨1, 0, 0⟩ 0 false false, .push ⟨2, 0, 0⟩ 0 false false, .pop 0 0]).map (·.1)
     = [.pushed true, .pushed true, .pushed false, .popped (some ⟨1, 0, 0⟩)] := by decide
 
-/-- the unproved statements hold on concrete runs with ties and expiry -/
+/-- concrete run with ties -/
 example : (run { kind := .prio } {} [.push ⟨0, 5, 0⟩ 0 false false, .push ⟨1, 3, 0⟩ 0 false false,
       .push ⟨2, 3, 0⟩ 0 false false, .pop 0 0, .pop 0 0]).map (·.1)
     = (sRun { kind := .prio } {} [.push ⟨0, 5, 0⟩ 0 false false, .push ⟨1, 3, 0⟩ 0 false false,
